@@ -205,6 +205,7 @@ async fn run(plan: Plan) -> Outcome {
     let mut idle_rounds = 0usize;
     let mut round = 0usize;
     let mut last_events = 0usize;
+    let mut drops = 0usize;
 
     for _ in 0..600 {
         settle(&inner, &extra_activity).await;
@@ -212,7 +213,22 @@ async fn run(plan: Plan) -> Outcome {
         let (received, dropped, connections) = { let mut g = inner.lock().unwrap(); (std::mem::take(&mut g.received), g.dropped, g.connections) };
         if connections > connections_seen { connections_seen = connections; broker.open_connection(); connection_open = true; }
         broker.client_bytes(&received);
-        if dropped && connection_open { connection_open = false; broker.close_connection(); }
+        if dropped && connection_open {
+            connection_open = false; broker.close_connection();
+            if let Some(control) = plan.on_drop.get(&drops) {
+                if !close_issued {
+                    match control {
+                        Control::Close => { let _ = client.close(); close_issued = true; }
+                        Control::CloseThenSubmit => { let _ = client.close(); close_issued = true; expected.push("after-close".into()); track_publish("after-close", client.publish(PublishPacket::builder("extra".to_string(), QualityOfService::AtLeastOnce).with_payload(vec![9]).build(), None), &results); }
+                        Control::SubmitThenClose => { expected.push("before-close".into()); track_publish("before-close", client.publish(PublishPacket::builder("extra".to_string(), QualityOfService::AtLeastOnce).with_payload(vec![9]).build(), None), &results); let _ = client.close(); close_issued = true; }
+                        Control::Stop => { let _ = client.stop(None); stop_issued = true; }
+                        Control::StopDisconnect => { let _ = client.stop(Some(StopOptions::builder().with_disconnect_packet(DisconnectPacket::builder().build()).build())); stop_issued = true; }
+                        Control::StopThenStart => { let _ = client.stop(None); let _ = client.start(None); }
+                    }
+                }
+            }
+            drops += 1;
+        }
 
         // user calls landed before this round
         if let Some(control) = plan.controls.get(&round) {
@@ -259,7 +275,7 @@ async fn run(plan: Plan) -> Outcome {
         }
         let stopped = event_list.iter().filter(|e| *e == "Stopped").count();
         if stop_issued && stopped > 0 && !close_issued && !connection_open {
-            if plan.controls.values().any(|c| matches!(c, Control::Stop | Control::StopDisconnect)) && !restart_pending && !all_resolved {
+            if plan.controls.values().chain(plan.on_drop.values()).any(|c| matches!(c, Control::Stop | Control::StopDisconnect)) && !restart_pending && !all_resolved {
                 restart_pending = true; stop_issued = false;
                 if client.start(None).is_err() { out.problem("start-after-stop-fails", "start() after a Stopped event returned an error"); break; }
             } else { let _ = client.close(); close_issued = true; }
@@ -311,7 +327,7 @@ async fn run(plan: Plan) -> Outcome {
             _ => { out.problem("operation-resolved-twice", name.clone()); }
         }
     }
-    let benign = plan.reads.values().all(|d| matches!(d, ReadDev::One | ReadDev::Half | ReadDev::Block)) && plan.writes.values().all(|d| matches!(d, WriteDev::One | WriteDev::AllButOne | WriteDev::Block)) && plan.flush_errors.is_empty() && plan.controls.is_empty() && plan.refuse.is_empty();
+    let benign = plan.reads.values().all(|d| matches!(d, ReadDev::One | ReadDev::Half | ReadDev::Block)) && plan.writes.values().all(|d| matches!(d, WriteDev::One | WriteDev::AllButOne | WriteDev::Block)) && plan.flush_errors.is_empty() && plan.controls.is_empty() && plan.on_drop.is_empty() && plan.refuse.is_empty();
     if benign && out.machinery.is_empty() {
         for r in out.results.clone() { if r.starts_with("invalid-") && r.ends_with(":ok") { out.problem("C16:statically-invalid-operation-accepted-by-client-handle", r.clone()); } }
         if out.results.iter().any(|r| !r.ends_with(":ok") && !r.starts_with("invalid-")) { let r = out.results.clone(); out.problem("operation-failed-under-benign-transport-behaviour", format!("results {:?}", r)); }
